@@ -36,6 +36,9 @@ structure RemD where
   prio : Nat
   rel : String
   lr : String
+  /-- 0 = the candidate's `Address()` is the canonical literal of its address; else the digest's `~n` mark
+  (IPv4-mapped / expanded literal).  The transport address `(net, addr)` is the same either way. -/
+  form : Nat := 0
   deriving Repr, Inhabited, BEq
 
 structure LocD where
@@ -133,25 +136,34 @@ def parsePair (s : String) : Option PairD :=
     | _, _, _, _, _, _, _, _ => none
   | _ => none
 
-/-- `<ty>@<net>.<addr>` -/
-def candHead? (s : String) : Option (Nat × Nat × Nat) :=
+/-- `<ty>@<net>.<addr>[~<form>]` -/
+def candHeadF? (s : String) : Option (Nat × Nat × Nat × Nat) :=
   match s.splitOn "@" with
   | [ty, na] =>
     match na.splitOn "." with
-    | [n, a] =>
-      match ty.toNat?, n.toNat?, a.toNat? with
-      | some ty, some n, some a => some (ty, n, a)
-      | _, _, _ => none
+    | [n, af] =>
+      let (a, f) : String × Option Nat := match af.splitOn "~" with
+        | [a, f] => (a, f.toNat?)
+        | _ => (af, some 0)
+      match ty.toNat?, n.toNat?, a.toNat?, f with
+      | some ty, some n, some a, some f => some (ty, n, a, f)
+      | _, _, _, _ => none
     | _ => none
+  | _ => none
+
+/-- `<ty>@<net>.<addr>` -/
+def candHead? (s : String) : Option (Nat × Nat × Nat) :=
+  match candHeadF? s with
+  | some (ty, n, a, 0) => some (ty, n, a)
   | _ => none
 
 def parseRem (s : String) : Option RemD :=
   match s.splitOn ":" with
   | [h, p, r, lr] =>
-    match candHead? h, (p.drop 1).toString.toNat? with
-    | some (ty, n, a), some p =>
+    match candHeadF? h, (p.drop 1).toString.toNat? with
+    | some (ty, n, a, f), some p =>
       if r.startsWith "r" && lr.startsWith "lr" then
-        some { ty := ty, net := n, addr := a, prio := p, rel := (r.drop 1).toString, lr := (lr.drop 2).toString }
+        some { ty := ty, net := n, addr := a, prio := p, rel := (r.drop 1).toString, lr := (lr.drop 2).toString, form := f }
       else none
     | _, _ => none
   | _ => none
